@@ -514,6 +514,7 @@ func runX6(p *an.Prog, r *an.Result) {
 // X7
 
 func runX7(p *an.Prog, r *an.Result) {
+	voUnit := valueOfUnit(p)
 	want := map[string][]int64{
 		"stringValue": {24},
 		"arrayValue":  {17, 23},
@@ -540,7 +541,7 @@ func runX7(p *an.Prog, r *an.Result) {
 			r.Counts["container wrapper constructions"]++
 			name := an.FuncName(fn)
 			construct := n.Obj().Name() + "{…}"
-			if name != "values.ValueOf" {
+			if !voUnit[fn] {
 				r.Bad(name, construct+" outside ValueOf", al.Pos(), "container wrappers rely on the kind of the wrapped value; only ValueOf's kind dispatch may build them")
 				return
 			}
@@ -585,6 +586,7 @@ func x7Bare(p *an.Prog, r *an.Result) {
 		r.Bad("-", "ValueOf not found", token.NoPos, "anchor not resolved")
 		return
 	}
+	voUnit := valueOfUnit(p)
 	isBare := func(t types.Type) bool {
 		n := an.NamedOf(t)
 		return n != nil && an.IsModulePkg(n.Obj().Pkg()) && an.RelPkg(n.Obj().Pkg().Path()) == "values" && n.Obj().Name() == "wrapperValue"
@@ -687,7 +689,7 @@ func x7Bare(p *an.Prog, r *an.Result) {
 							r.OK(name, "wrapperValue{constant} as a value", an.InstrPos(mi), "wraps nil, a boolean or a number")
 							continue
 						}
-						if fn != vo {
+						if !voUnit[fn] {
 							r.Bad(name, "bare wrapperValue built outside ValueOf", an.InstrPos(mi), "only ValueOf's kind dispatch knows that the wrapped value is a scalar")
 							continue
 						}
@@ -740,63 +742,66 @@ func x7Bare(p *an.Prog, r *an.Result) {
 		r.Bad(an.FuncName(vo), "nilValue not found", an.FuncPos(vo), "anchor not resolved")
 		return
 	}
-	an.EachInstr(vo, func(in ssa.Instruction) {
-		ret, ok := in.(*ssa.Return)
-		if !ok {
-			return
-		}
-		for _, rv := range resultsOf(ret) {
-			for _, o := range an.Origins(rv, an.StepValue) {
-				ld, ok := o.(*ssa.UnOp)
-				if !ok || ld.X != ssa.Value(nilG) {
-					continue
-				}
-				r.Counts["nil value returns"]++
-				// where does this origin flow into the return: the block of the MakeInterface / phi edge
-				blk := ld.Block()
-				okNil := false
-				for _, gd := range an.GuardsAt(blk) {
-					if !gd.True {
+	for uf := range voUnit {
+		uf := uf
+		an.EachInstr(uf, func(in ssa.Instruction) {
+			ret, ok := in.(*ssa.Return)
+			if !ok {
+				return
+			}
+			for _, rv := range resultsOf(ret) {
+				for _, o := range an.Origins(rv, an.StepValue) {
+					ld, ok := o.(*ssa.UnOp)
+					if !ok || ld.X != ssa.Value(nilG) {
 						continue
 					}
-					if b, ok := gd.Cond.(*ssa.BinOp); ok && b.Op == token.EQL {
-						for _, pair := range [][2]ssa.Value{{b.X, b.Y}, {b.Y, b.X}} {
-							if pair[0] == ssa.Value(vo.Params[0]) {
-								if c, ok := pair[1].(*ssa.Const); ok && c.Value == nil {
-									okNil = true // value == nil
+					r.Counts["nil value returns"]++
+					// where does this origin flow into the return: the block of the MakeInterface / phi edge
+					blk := ld.Block()
+					okNil := false
+					for _, gd := range an.GuardsAt(blk) {
+						if !gd.True {
+							continue
+						}
+						if b, ok := gd.Cond.(*ssa.BinOp); ok && b.Op == token.EQL {
+							for _, pair := range [][2]ssa.Value{{b.X, b.Y}, {b.Y, b.X}} {
+								if pair[0] == ssa.Value(uf.Params[0]) {
+									if c, ok := pair[1].(*ssa.Const); ok && c.Value == nil {
+										okNil = true // value == nil
+									}
 								}
 							}
 						}
 					}
-				}
-				ptrArm, isNil := false, false
-				for _, gd := range an.GuardsAt(blk) {
-					if !gd.True {
-						continue
-					}
-					if b, ok := gd.Cond.(*ssa.BinOp); ok && b.Op == token.EQL {
-						for _, pair := range [][2]ssa.Value{{b.X, b.Y}, {b.Y, b.X}} {
-							if isPkgType(pair[0].Type(), "reflect", "Kind") && kindOfWhole(pair[0], 0) {
-								if c, ok := an.ConstInt(pair[1]); ok && c == 22 {
-									ptrArm = true
+					ptrArm, isNil := false, false
+					for _, gd := range an.GuardsAt(blk) {
+						if !gd.True {
+							continue
+						}
+						if b, ok := gd.Cond.(*ssa.BinOp); ok && b.Op == token.EQL {
+							for _, pair := range [][2]ssa.Value{{b.X, b.Y}, {b.Y, b.X}} {
+								if isPkgType(pair[0].Type(), "reflect", "Kind") && kindOfWhole(pair[0], 0) {
+									if c, ok := an.ConstInt(pair[1]); ok && c == 22 {
+										ptrArm = true
+									}
 								}
 							}
 						}
+						if c := an.CallOf(gd.Cond); c != nil && an.CallName(c) == "(reflect.Value).IsNil" {
+							isNil = true
+						}
 					}
-					if c := an.CallOf(gd.Cond); c != nil && an.CallName(c) == "(reflect.Value).IsNil" {
-						isNil = true
+					if okNil || ptrArm && isNil {
+						r.OK(an.FuncName(uf), "nil value for nil or a nil pointer", ld.Pos(), "")
+					} else {
+						r.Bad(an.FuncName(uf), "nil value for something that is not nil or a nil pointer", ld.Pos(), "ValueOf answers the nil value where the argument is neither nil nor (kind Ptr and IsNil): a nil slice or map is an empty collection, truthy and iterable, not nil")
 					}
-				}
-				if okNil || ptrArm && isNil {
-					r.OK(an.FuncName(vo), "nil value for nil or a nil pointer", ld.Pos(), "")
-				} else {
-					r.Bad(an.FuncName(vo), "nil value for something that is not nil or a nil pointer", ld.Pos(), "ValueOf answers the nil value where the argument is neither nil nor (kind Ptr and IsNil): a nil slice or map is an empty collection, truthy and iterable, not nil")
 				}
 			}
-		}
-	})
+		})
+	}
 	r.Floor("bare wrappers becoming values", 5)
-	r.Floor("nil value returns", 2)
+	r.Floor("nil value returns", 1)
 }
 
 // ---------------------------------------------------------------------------
@@ -1327,4 +1332,36 @@ func runX16(p *an.Prog, r *an.Result) {
 		}
 	}
 	r.Floor("sign conversions", 1)
+}
+
+// valueOfUnit: ValueOf and the functions that only it (or they) call with the very value being
+// wrapped as first argument - the phases ValueOf may be split into (interned values, the kind dispatch).
+func valueOfUnit(p *an.Prog) map[*ssa.Function]bool {
+	unit := map[*ssa.Function]bool{}
+	vo := p.Func("values.ValueOf")
+	if vo == nil {
+		return unit
+	}
+	unit[vo] = true
+	for changed := true; changed; {
+		changed = false
+		for _, h := range unitWithHelpers(p, vo) {
+			if unit[h] || h.Pkg != vo.Pkg || len(h.Params) == 0 {
+				continue
+			}
+			sites := callSitesOf(p, h)
+			all := len(sites) > 0
+			for _, cs := range sites {
+				caller := an.Outermost(cs.Parent())
+				if !unit[caller] || len(cs.Call.Args) == 0 || len(caller.Params) == 0 || cs.Call.Args[0] != ssa.Value(caller.Params[0]) {
+					all = false
+				}
+			}
+			if all {
+				unit[h] = true
+				changed = true
+			}
+		}
+	}
+	return unit
 }
